@@ -1,4 +1,6 @@
 """C03 Left-recursive grammars are rejected; accepted grammars always terminate."""
+import contextlib
+import io
 import itertools
 import resource
 import sys
@@ -324,7 +326,15 @@ def run_case(ctx, mon, cfg_id, terms, prods, start, kind, inputs_spec=None, rng=
         detail = {"smart_factorization": smart, "cycle": cycle}
         mon.start_ctor(CTOR_LINE_BOUND)
         try:
-            parsers[smart] = cfg.make_parser(prods, start, smart_factorization=smart)
+            given = prods
+            wrapped = sorted(prods)[len(gsig) % len(prods)]
+            if sum(map(ord, gsig)) % 4 == 1 and prods[wrapped]:
+                # one symbol's alternatives are given through a template object the caller wrote himself (it only
+                # generates the alternatives and leaves the result alone)
+                given = dict(prods)
+                given[wrapped] = llmon.VfAlternatives(prods[wrapped])
+                ctx.count("grammars_with_a_template_written_by_the_caller")
+            parsers[smart] = cfg.make_parser(given, start, smart_factorization=smart)
         except llmon.CtorStepBoundExceeded:
             ctx.violation("left-recursion-check-exceeds-step-bound",
                           dict(detail, lines=mon.ctor_lines, bound=CTOR_LINE_BOUND), base_case)
@@ -365,8 +375,6 @@ def run_case(ctx, mon, cfg_id, terms, prods, start, kind, inputs_spec=None, rng=
     ctx.count("accepted_grammars")
     if sum(map(ord, gsig)) % 3 == 0:
         # somebody prints the parser's description of itself (a read-only report) before the parser is used
-        import contextlib
-        import io
         for parser in parsers.values():
             try:
                 with contextlib.redirect_stdout(io.StringIO()):
@@ -417,9 +425,22 @@ def run_case(ctx, mon, cfg_id, terms, prods, start, kind, inputs_spec=None, rng=
                 src = text[:cut] + "\x01" + text[cut:]
                 ctx.count("texts_with_a_character_no_token_matches")
             try:
-                # (every fifth parse with the parser's own trace switched on: the messages go nowhere)
-                parser.parse(src, do_cleanup=False, debug=(len(text) % 5 == 1), **kw)
+                # (every fifth parse with the parser's own trace switched on: the messages go nowhere; every third
+                # with the default clean-up of the result)
+                with contextlib.redirect_stdout(io.StringIO()):
+                    parser.parse(src, debug=(len(text) % 5 == 1), **({} if len(text) % 3 == 1 else {'do_cleanup': False}),
+                                 **kw)
                 ctx.count("parses_returned_tree")
+                if len(text) % 4 == 2 and isinstance(src, str) and len(prods) > 1:
+                    # the first half of the text is looked at as a fragment that starts at another symbol (the
+                    # documented keyword): a tree or a parsing error - nothing else
+                    nt = sorted(prods)[len(text) % len(prods)]
+                    ctx.count("fragments_parsed_from_another_symbol")
+                    try:
+                        with contextlib.redirect_stdout(io.StringIO()):
+                            parser.parse(text[:len(text) // 2], start_symbol_name=nt)
+                    except llparser.Error:
+                        pass
             except llparser.ParsingError:
                 ctx.count("parses_raised_parsing_error")
             except llparser.LexicalError:
